@@ -9,9 +9,9 @@
           runBTR r σ  agrees with  X86.step i st   on every register, flag, memory byte and the next address
 
   WHAT IS PROVED HERE (all of it universal over operand values / register contents / states; nothing is bounded):
-    (A) mirror + theorem, INSTRUCTION LEVEL (`lift_correct_rr/ri/un/rm/mr/mi/lea/setcc`): 64-bit mode,
+    (A) mirror + theorem, INSTRUCTION LEVEL (`lift_correct_rr/ri/un/rm/mr/mi/lea/setcc/cmov/jcc`): 64-bit mode,
         {mov add sub cmp and or xor} x (reg,reg | reg,imm | reg,[mem] | [mem],reg | [mem],imm), lea, and
-        {inc dec neg not} x register, setcc r8 (14 codes); memory operands = base + index*scale + disp with 64-bit registers or rip, mapped
+        {inc dec neg not} x register, setcc r8, cmovcc r,r and jcc rel (14 codes each); memory operands = base + index*scale + disp with 64-bit registers or rip, mapped
         and non-wrapping accesses; registers at every operand size and shape — 64-bit, 32-bit (zero-extending), 16-bit, low byte, and the high-byte
         registers ah/ch/dh/bh — every pair of registers (aliasing included), every state: `runBTR` of the mirrored
         `BlockTranslationResult` agrees with `X86.step` on all sixteen general registers, CF ZF SF OF, memory and the
@@ -40,6 +40,7 @@ import FalconProofs.C01.Alu
 import FalconProofs.C01.Unary
 import FalconProofs.C01.MemForms
 import FalconProofs.C01.Setcc
+import FalconProofs.C01.Cmov
 
 namespace Falcon.C01.Props
 open Falcon Falcon.X86 Falcon.X86Lift Falcon.Const Falcon.Sem Falcon.C01
@@ -344,6 +345,40 @@ theorem mov_r32_self_clears_upper (i : Nat) (hi : i < 16) (addr len asz : Nat) (
   refine ⟨r, σ', hr, h1, ?_⟩
   rw [h3.gpr i hi, ← h2]
   simp [setReg, mergeReg, getReg]
+
+/-- **lift_correct_cmov**: `cmovcc r, r` at 64, 32 and 16 bits, fourteen condition codes, every register pair.  The
+    mirror's four-block graph (head, not-taken arm, taken arm, exit) run by `runBTR` agrees with the specification,
+    whose result is `setReg st d (if cond then src else dst)`: for a 32-bit destination the register is ZERO-EXTENDED
+    whether or not the condition holds (`cmov_r32_not_taken_zero_extends` below spells that out). -/
+theorem lift_correct_cmov {m : String} {c : Nat} (hsp : splitCc m = some ("cmov", c)) (hc : c < 16) (hp : c ≠ 10 ∧ c ≠ 11)
+    {d s : GReg} (hd : Shape d) (hs : Shape s) (hb : s.bits = d.bits) (hd16 : 16 ≤ d.bits) (hdi : d.idx < 16) (hsi : s.idx < 16)
+    (addr len asz : Nat) (haddr : addr + len < 2 ^ 64) (σ : State) (st : St) (hok : Abs σ st) :
+    ∃ r, liftCmov .amd64 c addr len d s = .ok r ∧ Agrees r σ (insRR m addr len asz d s) st :=
+  lift_cmov hsp hc hp hd hs hb hd16 hdi hsi addr len asz haddr σ st hok
+
+/-- the not-taken 32-bit cmov: the lifted IL's final 64-bit register is the zero-extension of its low half -/
+theorem cmov_r32_not_taken_zero_extends {m : String} {c : Nat} (hsp : splitCc m = some ("cmov", c)) (hc : c < 16)
+    (hp : c ≠ 10 ∧ c ≠ 11) (i j : Nat) (hi : i < 16) (hj : j < 16) (addr len asz : Nat) (haddr : addr + len < 2 ^ 64)
+    (σ : State) (st : St) (hok : Abs σ st) (hcond : X86.cond st c = false) :
+    ∃ r σ', liftCmov .amd64 c addr len ⟨i, 32, 0⟩ ⟨j, 32, 0⟩ = .ok r ∧ runBTR r σ = .next σ' [addr + len] ∧
+      σ'.get (rName i) = some (ofBV (((st.gpr i).setWidth 32).setWidth 64)) := by
+  obtain ⟨r, hr, σ', st', h1, h2, h3, _⟩ :=
+    lift_cmov hsp hc hp (Shape.r32 i) (Shape.r32 j) rfl (by simp) hi hj addr len asz haddr σ st hok
+  rw [step_cmov m c hsp addr len asz _ _ st haddr] at h2
+  injection h2 with h2 _ _
+  refine ⟨r, σ', hr, h1, ?_⟩
+  rw [h3.gpr i hi, ← h2]
+  simp [setReg, mergeReg, getReg, hcond]
+
+/-- **lift_correct_jcc**: `jcc target`, fourteen condition codes: the three-block graph leaves the state alone and the
+    guarded successors select `target` exactly when the SDM's condition holds, `addr + len` otherwise; the
+    specification's step is the same -/
+theorem lift_correct_jcc {m : String} {c : Nat} (hsp : splitCc m = some ("j", c)) (hc : c < 16) (hp : c ≠ 10 ∧ c ≠ 11)
+    (addr len target tb : Nat) (haddr : addr + len < 2 ^ 64) (ht : target < 2 ^ 64) (σ : State) (st : St) (hok : Abs σ st) :
+    ∃ r, liftJcc c addr len target = .ok r ∧
+      runBTR r σ = .next σ [if X86.cond st c then target else addr + len] ∧
+      X86.step (insJ m addr len target tb) st = .ok st (if X86.cond st c then target else addr + len) [] :=
+  lift_jcc hsp hc hp addr len target tb haddr ht σ st hok
 
 /-! ### non-vacuity -/
 
